@@ -124,6 +124,7 @@ type dir struct {
 	parse      []byte
 	rx         *queue
 	hold       bool
+	failWrites bool
 	held       []Frame
 	count      int
 	oversize   int
@@ -133,6 +134,9 @@ type dir struct {
 func (d *dir) feed(b []byte) error {
 	d.mu.Lock()
 	defer d.mu.Unlock()
+	if d.failWrites {
+		return errors.New("zzmem: write failed (half-dead link)")
+	}
 	d.parse = append(d.parse, b...)
 	for len(d.parse) >= 14 {
 		n := int(binary.BigEndian.Uint32(d.parse[2:6]))
@@ -165,6 +169,15 @@ func (l *Link) Hold(fromDialer bool) {
 	d := l.dir(fromDialer)
 	d.mu.Lock()
 	d.hold = true
+	d.mu.Unlock()
+}
+
+// FailWrites makes writes in one direction fail while the link stays up otherwise (a
+// half-dead link: the writer's connection remains registered, nothing is delivered).
+func (l *Link) FailWrites(fromDialer bool, on bool) {
+	d := l.dir(fromDialer)
+	d.mu.Lock()
+	d.failWrites = on
 	d.mu.Unlock()
 }
 
